@@ -37,7 +37,8 @@ TokList(ts, d, sep) == IF ts = <<>> THEN "" ELSE Toks(Head(ts), d) \o (IF Len(ts
 Gen1(name, t, d) == name \o "<" \o Toks(t.a[1], d) \o ">"
 Gen2(name, t, d) == name \o "<" \o Toks(t.a[1], d) \o "," \o Toks(t.a[2], d) \o ">"
 Toks(t, d) ==
-  CASE t.c = "prim" -> t.n [] t.c = "string" -> "String" [] t.c = "str" -> "str" [] t.c = "param" -> t.n
+  CASE t.c = "prim" -> t.n [] t.c = "macrot" -> "u8"         \* a `$t:ty` fragment instantiated with u8: named by its tokens, no delimiters
+    [] t.c = "string" -> "String" [] t.c = "str" -> "str" [] t.c = "param" -> t.n
     [] t.c = "vec" -> Gen1("Vec", t, d) [] t.c = "opt" -> Gen1("Option", t, d) [] t.c = "box" -> Gen1("Box", t, d)
     [] t.c = "phantom" -> Gen1("PhantomData", t, d)
     [] t.c = "result" -> Gen2("Result", t, d) [] t.c = "btreemap" -> Gen2("BTreeMap", t, d)
